@@ -53,6 +53,10 @@ checks.update({
  "C15": ("model_checking", "configuration enumeration: six feature sets x one exhaustive case set, per-pattern result digests compared with the default build",
          "default, index-positions, prohibit-unsafe, index-positions+prohibit-unsafe, utf16 and no-std+alloc builds of the runner each replay the same enumerated case set (the C06 space plus every member of a non-trivial case-folding class as literal and bracket under i / iu) through the string APIs and emit a digest per pattern (compiled-or-error, all match ranges and captures); any difference from the default build is a violation and is located with mc c15-dump.", "4 C15"),
 })
+checks.update({
+ "C20": ("model_checking", "bounded-exhaustive exploration of next()/next_back() call histories of the real searcher, contract invariants checked on every history",
+         "Built with the pattern feature on nightly: 33 regexes x every haystack over {a, 1, e-acute, U+1F600} up to length 3 (4 thorough) x 26 call histories (forward only, backward only, every interleaving with at most two direction switches), each direction run to Done plus two further calls: steps adjacent and non-overlapping from their end of the haystack, on char boundaries, covering the haystack at Done, forward Match steps = find_iter, each direction unaffected by the other; then str::find / contains / matches / match_indices / split against a find_iter model.", "4 C20"),
+})
 not_applicable = {
 }
 PENDING = "check not built yet in this round (planned in DESIGN.md section 10); nothing is claimed for it until it exists"
